@@ -77,6 +77,7 @@ def correspondence(ctx):
             ctx.sample({"line": lines[index[(("ge", "lt"), 3)]], "model spec wf": answers[index[(("ge", "lt"), 3)]],
                         "scheme": name})
     _range_stream(ctx)
+    _long_and_routes(ctx)
     _end_to_end(ctx)
     _cross_scheme(ctx)
 
@@ -144,6 +145,107 @@ def _range_stream(ctx):
                 ctx.disagree(stream, line, impl, model, False, B.describe(bench, cons, m, x), spec=spec)
         if name == "deb" and lines:
             ctx.sample({"line": lines[0], "model": answers[0], "scheme": name})
+
+
+INV = {"ge": "lt", "le": "gt", "ne": "eq", "lt": "ge", "gt": "le", "eq": "ne"}
+
+
+def _wf_pattern(rng, n):
+    """a well-formed comparator sequence of length n (version-sorted): alternating bounds with '=' and '!=' sprinkled
+    where the rules allow them; or only '=', only '!=', or '=' and '!='"""
+    r = rng.random()
+    if r < 0.2:
+        return ["eq"] * n
+    if r < 0.3:
+        return ["ne"] * n
+    if r < 0.4:
+        return [rng.choice(["eq", "ne"]) for _ in range(n)]
+    out = []
+    want_lower = rng.random() < 0.5        # the next bound is a lower one
+    after_eq_ok = True
+    for _ in range(n):
+        q = rng.random()
+        if q < 0.2:
+            out.append("ne")
+        elif q < 0.4 and want_lower:
+            out.append("eq")               # '=' only where the next bound is a lower bound (or there is none)
+        elif want_lower:
+            out.append(rng.choice(["gt", "ge"]))
+            want_lower = False
+        else:
+            out.append(rng.choice(["lt", "le"]))
+            want_lower = True
+    return out
+
+
+def _long_and_routes(ctx):
+    """(1) long ranges: ten to fourteen constraints (a fast path for long lists is a plausible optimisation), tested at
+    and between every constraint version, at a constraint version in another spelling of it; (2) the same range
+    obtained by other routes than the constructor: by inverting the range of the inverted constraints, by printing
+    and parsing"""
+    from univers.version_range import VersionRange, RANGE_CLASS_BY_SCHEMES
+    per = 60 if ctx.thorough else 10
+    for name in S.ALL:
+        rng = ctx.rng("c04-long", name)
+        bench = B.Bench(name, rng, size=34, need_hash=False, respell=0.5)
+        stream = "long-ranges:" + name
+        nmax = min(14, (bench.pool.n() - 2) // 2)
+        if nmax < 6:
+            ctx.stream(stream)["skipped"] = "pool too small (%d classes)" % bench.pool.n()
+            continue
+        jobs = []
+        for i in range(per):
+            n = rng.randint(min(10, nmax), nmax) if i % 3 else rng.randint(1, 4)
+            jobs.append(B.sorted_cons(_wf_pattern(rng, n)))
+        lines, idx = [], {}
+        for j, cons in enumerate(jobs):
+            for x in range(1, 2 * len(cons) + 2):
+                idx[(j, x)] = len(lines)
+                lines.append("contains %s %d" % (B.cons_line(cons), x))
+        answers = common.run_model(lines)
+        rcls = bench.rclass
+        registered = S.rclass(name) is not None and RANGE_CLASS_BY_SCHEMES.get(rcls.scheme) is rcls
+        for j, cons in enumerate(jobs):
+            n = len(cons)
+            m = bench.mapping(2 * n + 2, rng)
+            objs = B.real_cons(bench, cons, m)
+            routes = [("contains_version", lambda v: contains_version(v, tuple(objs)))]
+            try:
+                r0 = rcls(constraints=list(objs))
+                routes.append(("range", lambda v, r0=r0: v in r0))
+                routes.append(("range.contains()", lambda v, r0=r0: r0.contains(v)))
+            except Exception:  # noqa: BLE001
+                pass
+            try:
+                inv = [VersionConstraint(comparator=B.TXT[INV[c]], version=m[r][1]) for c, r in cons]
+                r1 = rcls(constraints=inv).invert()
+                if r1 is not None:
+                    routes.append(("inverse of the inverted constraints", lambda v, r1=r1: v in r1))
+            except Exception:  # noqa: BLE001
+                pass
+            if registered:
+                try:
+                    r2 = VersionRange.from_string(str(r0))
+                    if list(r2.constraints) == list(r0.constraints):
+                        routes.append(("printed and parsed", lambda v, r2=r2: v in r2))
+                except Exception:  # noqa: BLE001
+                    pass
+            for x in range(1, 2 * n + 2):
+                model, spec, wf = answers[idx[(j, x)]].split(" ")
+                if wf != "true":
+                    continue
+                probes = [m[x]] + ([bench.alt(m[x], rng)] if x % 2 == 0 else [])
+                for xt, xv in probes:
+                    for rname, fn in routes:
+                        impl = B.res_bool(lambda: fn(xv))
+                        ctx.count(stream, key=(j, x, xt, rname), nontrivial=n >= 2, branch="n>=10" if n >= 10 else "short")
+                        if impl != "ok:" + spec:
+                            d = B.describe(bench, cons, m, x)
+                            d["version"] = xt
+                            d["route"] = rname
+                            d["python"] = _oneliner(name, d)
+                            ctx.disagree(stream, lines[idx[(j, x)]] + " via " + rname, impl, model, True, d, spec=spec)
+                            break
 
 
 def search(ctx):
